@@ -2,7 +2,7 @@
    This file only states theorems; proofs live in SV.C17Proofs / ViewFS / ViewTrie / ViewThm / ViewThm2 /
    C17Witness.  The model is SV.View (create_linked_view and all helpers of signac/linked_view.py, the
    leaf/node check of import_export.py as written); the job -> path map is an input of the model. *)
-From SV Require Import Base View CorrC17 C17Proofs ViewFS ViewTrie ViewThm ViewThm2 ViewThm3 ViewResolve ViewThm4 C17Witness.
+From SV Require Import Base View CorrC17 C17Proofs ViewFS ViewTrie ViewThm ViewThm2 ViewThm3 ViewResolve ViewThm4 ViewInc ViewInc2 C17Witness.
 
 (* ---------------------------------------------------------------- rejected inputs *)
 (* view_reject_unchanged: whatever the guards reject (separator in a top level key/value, a failing
@@ -90,6 +90,41 @@ Theorem C17_make_link_step : forall P, P <> [] -> Forall plain P ->
     (forall r, is_prefix P r = false -> kind_at w' r = kind_at w r).
 Proof. exact link_step. Qed.
 Print Assumptions C17_make_link_step.
+
+(* ---------------------------------------------------------------- the incremental update is exact *)
+(* view_exact, on plain views.  For every tree w (one entry per name) whose prefix P holds exactly the view
+   of an OLD plain specification so (no link at the root of the prefix) with links that resolve to the
+   directories they were made for, every NEW plain specification sn, every hint and cwd: _update_view
+   succeeds and afterwards there is below P exactly the view of sn — one link per entry with the target
+   the code computes, the directories leading to them, nothing else (no obsolete, stale or duplicate
+   link, no empty directory) — and no path outside P changes its kind.  so and sn are arbitrary: any
+   additions, removals and re-keys between two runs.  PARTIAL only in that views with the link at the
+   root of the prefix (one selected job) and trees reached through the known defects are excluded. *)
+Theorem C17_view_exact_partial : forall P (so sn : spec) hint w n cwd,
+  P <> [] -> Forall plain P -> good_spec so -> good_spec sn -> no_root so -> no_root sn -> nwf w ->
+  Inv P w true (map (placed P cwd) so) ->
+  (forall e, In e so -> realpath w cwd (pjoin (A P) (key_of e)) = snd e) ->
+  exists w' k,
+    update_view hint (w, n) cwd (A P) (lk_of sn) = ok (w', (n + k)%N) /\
+    (forall q, kind_at w' (P ++ q) = vk true (map (placed P cwd) sn) q) /\
+    (forall r, is_prefix P r = false -> kind_at w' r = kind_at w r).
+Proof. exact incremental_exact. Qed.
+Print Assumptions C17_view_exact_partial.
+
+(* view_incremental_eq_scratch for ANY two plain link maps: updating the old view and building the
+   new one from scratch (in any tree where the prefix does not exist) give the same kind — same link
+   text, same directories, same absences — at every path below the prefix. *)
+Theorem C17_view_incremental_eq_scratch_partial : forall P (so sn : spec) hint hint' w ws n n' cwd,
+  P <> [] -> Forall plain P -> good_spec so -> good_spec sn -> no_root so -> no_root sn -> nwf w ->
+  Inv P w true (map (placed P cwd) so) ->
+  (forall e, In e so -> realpath w cwd (pjoin (A P) (key_of e)) = snd e) ->
+  dirs_to ws (removelast P) -> get ws P = None ->
+  exists wi ki wsc ksc,
+    update_view hint (w, n) cwd (A P) (lk_of sn) = ok (wi, (n + ki)%N) /\
+    update_view hint' (ws, n') cwd (A P) (lk_of sn) = ok (wsc, (n' + ksc)%N) /\
+    forall q, q <> [] \/ sn <> [] -> kind_at wi (P ++ q) = kind_at wsc (P ++ q).
+Proof. exact incremental_eq_scratch. Qed.
+Print Assumptions C17_view_incremental_eq_scratch_partial.
 
 (* ---------------------------------------------------------------- no dangling link *)
 (* the link T/job with the relative target the code computes resolves (os.path.realpath in the model
